@@ -162,6 +162,11 @@ let start_runner (s : script) : runner =
 
 let exec_op (r : runner) (op : string list) : unit =
   (match op with
+   | ("user" | "demand" | "add_poll" | "enable" | "disable" | "reconnect") :: _ ->
+     let t = int_of_z r.st.ms_m_now in
+     r.out <- Line (t, 0, Printf.sprintf "op %d %s" t (String.concat " " op)) :: r.out
+   | _ -> ());
+  (match op with
    | ["rx"; from; h] ->
      let b = unhex h in
      (* the harness hands a fragment to the master only while it is connected, and marks it *)
